@@ -40,11 +40,12 @@ Print Assumptions C20_release_terminates.
 (* THE MAIN THEOREM.  For every graph that is count-consistent, typed by the
    schema of the current code, and whose connected gates are listed by a module
    context: once all root handles have been dropped -- in whatever order
-   [roots] lists them -- every object still allocated is a TimerSlot or a
-   TimerQueue. *)
+   [roots] lists them -- NO object is allocated any more, and every object of
+   the graph is in the destructor log exactly once. *)
 Theorem C20_all_freed_after_root_release : forall s roots, good false s roots ->
-  forall o ob, nth_error (hp (release_all s roots)) o = Some ob -> live ob = true -> timer_tag (otag ob) = true.
-Proof. exact all_freed. Qed.
+  (forall o ob, nth_error (hp (release_all s roots)) o = Some ob -> live ob = false) /\
+  (forall o, o < length (hp s) -> cnt o (freed (release_all s roots)) = 1).
+Proof. intros s roots G. split; [exact (all_freed s roots G)|exact (freed_exactly_once s roots G)]. Qed.
 Print Assumptions C20_all_freed_after_root_release.
 
 (* Corollary for what a user can observe: every module state (with its
@@ -62,26 +63,18 @@ Theorem C20_checker_sound : forall pin s roots, goodb pin s roots = true -> good
 Proof. exact goodb_sound. Qed.
 Print Assumptions C20_checker_sound.
 
-(* The carve-out is exact, part 1: a TimerQueue that lists a TimerSlot as
-   pending while that slot points back at it (time/driver.rs:20,27) is never
-   freed, whatever is released. *)
-Theorem C20_timer_cycle_stays_allocated : forall s roots q sl, inv s roots -> timer_pair (hp s) q sl ->
-  is_live (hp (release_all s roots)) q = true /\ is_live (hp (release_all s roots)) sl = true.
-Proof. exact timer_pair_survives. Qed.
-Print Assumptions C20_timer_cycle_stays_allocated.
-
-(* part 2: whatever survives in a well-formed graph is the target of a strong
-   field of another survivor -- only slot <-> queue cycles keep anything alive. *)
-Theorem C20_survivors_hang_on_timer_cycles : forall s roots, good false s roots ->
-  let h' := hp (release_all s roots) in
-  forall o, is_live h' o = true ->
-    exists p pb e, is_live h' p = true /\ nth_error h' p = Some pb /\ In e (strong pb) /\ et e = o /\ is_conn (ek e) = false.
-Proof. exact survivors_supported. Qed.
-Print Assumptions C20_survivors_hang_on_timer_cycles.
+(* Why the schema must not contain a cycle of ordinary fields: a set of objects each of which
+   is the target of a non-connection strong edge from a member of the set is never freed,
+   whatever is released (count-consistent heaps).  Both repaired defects (6ce5d8e, 012bc88) were
+   instances: see Refuted/C20.v. *)
+Theorem C20_supported_set_never_freed : forall (S : nat -> Prop) s roots, inv s roots -> supported S (hp s) ->
+  forall o, S o -> is_live (hp (release_all s roots)) o = true.
+Proof. exact supported_survives. Qed.
+Print Assumptions C20_supported_set_never_freed.
 
 (* For the scripted simulations: whenever the model reports ok = 1, the graph
    at the stopping point satisfies the hypotheses, hence nothing user-visible
-   is alive after the drop. *)
+   is alive after the drop (nor anything else). *)
 Theorem C20_model_verdict_forces_release : forall input,
   let '(w, roots, _) := stop_state false input in
   goodb false (w_st w) roots = true -> alive_users (hp (release_all (w_st w) roots)) = 0%N.
